@@ -138,6 +138,7 @@ func c04(r *core.Run) {
 	c04Succ(r)
 	c04Sentinel(r)
 	c04Ops(r)
+	c04RelPkg(r)
 	c04Conj(r)
 	c04Equiv(r)
 	c04Pres(r)
@@ -882,4 +883,58 @@ func c04Conj(r *core.Run) {
 		}
 	}
 	r.Floor("C04.CONJ", "two-sided attribute comparisons in the comparators", n, 10)
+}
+
+// c04RelPkg: "two separately compiled copies of identical source are reported preserved" — also when the copies live
+// under different import paths (old/f.go and new/f.go in one module). Every place of the canonicaliser that turns a
+// package into text (a call of (*types.Package).Path, or Function.String with its full path) therefore treats the
+// package under analysis specially: the function that renders it compares the rendered object's package with the
+// subject's. A renderer without such a comparison writes the import path of the subject's own package into the IR.
+func c04RelPkg(r *core.Run) {
+	p := r.P
+	n := 0
+	for _, fn := range p.FuncsIn("pkg/analysis/ir") {
+		var site ssa.Instruction
+		what := ""
+		core.InstrsOf(fn, func(in ssa.Instruction) {
+			c := core.CallOf(in)
+			if c == nil {
+				return
+			}
+			switch core.CalleeName(c) {
+			case "(*go/types.Package).Path":
+				site, what = in, "the import path of a package"
+			case "(*" + ssaPkgPath + ".Function).String":
+				site, what = in, "the full name of a function"
+			}
+		})
+		if site == nil {
+			continue
+		}
+		// only renderers: the text reaches a string result
+		rt := resultTypes(fn)
+		if len(rt) != 1 || rt[0].String() != "string" {
+			continue
+		}
+		n++
+		compares := false
+		core.InstrsOf(fn, func(in ssa.Instruction) {
+			b, ok := in.(*ssa.BinOp)
+			if !ok || (b.Op != token.EQL && b.Op != token.NEQ) {
+				return
+			}
+			isPkg := func(v ssa.Value) bool {
+				t := core.Deref(v.Type()).String()
+				return strings.HasSuffix(t, "ssa.Package") || strings.HasSuffix(t, "go/types.Package")
+			}
+			if isPkg(b.X) && isPkg(b.Y) && !core.IsNilConst(b.X) && !core.IsNilConst(b.Y) {
+				// one side belongs to the subject (read through the receiver)
+				if strings.Contains(core.Canon(b.X), "recv.") || strings.Contains(core.Canon(b.Y), "recv.") {
+					compares = true
+				}
+			}
+		})
+		r.Check(compares, "C04.RELPKG", core.FuncName(fn)+"#own-package-relative", site.Pos(), "the renderer distinguishes the package under analysis from other packages", "the renderer writes "+what+" without asking whether it is the package under analysis: the same source compiled under another import path (old/ and new/ copies in one module) renders differently, and every function that mentions a package-level type, function or variable of its own package is reported as modified")
+	}
+	r.Floor("C04.RELPKG", "renderers that turn a package into text", n, 2)
 }
